@@ -480,8 +480,11 @@ pub fn generate_c07(tier: &str, seed: u64, out: &mut Out) {
         many_paras.push_str(&format!("Package: {}\nN: {}\n\n", ["c", "b", "a"][i % 3], i));
         many_entries.push_str(&format!("{}: {}\n", ["K", "J", "I"][i % 3], ["v", "u"][i % 2]));
     }
+    // error trees (outside the oracle's domain: only model and implementation are compared): the
+    // last paragraph ends in an EMPTY ERROR node, `last_token()` is `None`, no terminator is supplied
+    let error_trees = ["A", "A\nB: c", "A: b\nC", "A: b\n\nC", "C\n\nA: b"];
     // document level without a paragraph callback (only sorting / blank-line normalisation)
-    for t in fixed.iter() {
+    for t in fixed.iter().chain(error_trees.iter()) {
         for c in ["1/0/n/n/p/x", "1/0/n/n/n/x"] {
             out.req("deb.wrap", &["d".to_string(), es(t), c.to_string()]);
         }
